@@ -718,7 +718,7 @@ func randomPolicy(r *core.Rand) policy {
 		acceptNonStd:      r.Chance(40, 100),
 		rejectReplacement: r.Chance(15, 100),
 		maxOrphans:        int(r.Pick(0, 1, 2, 5, 100, 100)),
-		maxOrphanSize:     int(r.Pick(150, 400, 100000, 100000)),
+		maxOrphanSize:     int(r.Pick(117, 149, 160, 192, 100000, 100000)),
 		minRelayFee:       r.Pick(0, 1000, 1000, 1000, 5000),
 		disablePriority:   true,
 		freeRelay:         r.Bool(),
@@ -787,7 +787,7 @@ func (P) Generate(g0 *core.Gen) {
 			g.Case("rbf-limit", true, s.line())
 		}
 	}
-	for i := 0; i < g.N(250, 4000); i++ {
+	for i := 0; i < g.N(250, 2500); i++ {
 		r := g.R.Fork()
 		s := newSim(r, randomPolicy(r), int(r.Pick(1, 2, 2, 3)))
 		s.scenario(int(r.Pick(8, 15, 25, 40)), false)
@@ -803,7 +803,7 @@ func (P) Generate(g0 *core.Gen) {
 			g.Case("concurrent-exploration", len(s.defs) >= 3, strings.Replace(s.line(), "C10 run ", "C10 conc ", 1))
 		}
 	}
-	for i := 0; i < g.N(400, 6000); i++ {
+	for i := 0; i < g.N(400, 4000); i++ {
 		r := g.R.Fork()
 		s := newSim(r, randomPolicy(r), int(r.Pick(1, 2, 2, 3)))
 		s.scenario(int(r.Pick(10, 20, 30, 50)), true)
